@@ -154,6 +154,10 @@ def run_case(cs):
         with open(os.path.join(root, rel), "wb") as f:
             f.write(data)
         mt, side = _instant(rng, zone, rng.choice([year, year - 1, 2015]))
+        if rng.random() < 0.08:
+            # zeroed / clamped time stamps as archives and some cameras produce them
+            mt, side = rng.choice([0, 0, 1, -1, 86399, 2**31 - 1, 2**31, 4102444800, 315532800]), "special"
+            cs.count("special_mtimes")
         os.utime(os.path.join(root, rel), (mt, mt))
         files[rel] = (len(data), mt, side)
     if rng.random() < 0.3 and files:
@@ -163,6 +167,8 @@ def run_case(cs):
         files["link-to-file.bin"] = files[target]
         cs.count("symlinked_files")
     dmt, dside = _instant(rng, zone, year)
+    if rng.random() < 0.05:
+        dmt, dside = rng.choice([0, 1, -1, 2**31]), "special"
     os.utime(os.path.join(root, "sub"), (dmt, dmt))
     clock.set_zone(zone)
     clock.freeze(now)
